@@ -40,9 +40,11 @@ def parseBool (value : String) : Option Bool :=
   else if ["0", "false", "f", "no", "n", "off"].contains norm then some false
   else none
 
-/-- Python `repr(str)` for strings without backslashes or control characters -/
+/-- Python `repr(str)`: single quotes unless the string holds a single quote and no double quote; backslash, the chosen
+    quote, newline, carriage return and tab are escaped (other control characters are outside the model) -/
 def pyReprStr (s : String) : String :=
-  if s.contains '\'' && !s.contains '"' then "\"" ++ s ++ "\"" else "'" ++ s.replace "'" "\\'" ++ "'"
+  let body := ((s.replace "\\" "\\\\").replace "\n" "\\n").replace "\r" "\\r" |>.replace "\t" "\\t"
+  if s.contains '\'' && !s.contains '"' then "\"" ++ body ++ "\"" else "'" ++ body.replace "'" "\\'" ++ "'"
 
 /-- `Settings.getstr` -/
 def getstr : SVal → String
